@@ -34,6 +34,7 @@ type ParentCtx struct {
 	Seed     uint64
 	Scratch  string // removed by the driver when the check ends
 	VerifDir string
+	OutDir   string // where evidence/ and replays/ are written (defaults to VerifDir)
 	Exe      string
 	Start    time.Time
 	Env      []string
@@ -275,6 +276,10 @@ func loadKnown(dir string) knownFindings {
 func CheckMain(p *Prop, pc *ParentCtx) int {
 	var agg *Aggregate
 
+	if pc.OutDir == "" {
+		pc.OutDir = pc.VerifDir
+	}
+
 	if err := oracle.SelfTest(); err != nil {
 		agg = NewAggregate()
 		agg.Incon("oracle self-test failed: %v", err)
@@ -341,7 +346,7 @@ func CheckMain(p *Prop, pc *ParentCtx) int {
 	var replayPaths []string
 
 	if len(fresh) > 0 {
-		_ = os.MkdirAll(filepath.Join(pc.VerifDir, "replays"), 0o755)
+		_ = os.MkdirAll(filepath.Join(pc.OutDir, "replays"), 0o755)
 	}
 
 	for i, v := range fresh {
@@ -349,7 +354,7 @@ func CheckMain(p *Prop, pc *ParentCtx) int {
 			break
 		}
 
-		path := filepath.Join(pc.VerifDir, "replays", fmt.Sprintf("%s-%s-%d-%d.json", p.ID, pc.Tier, pc.Seed, i))
+		path := filepath.Join(pc.OutDir, "replays", fmt.Sprintf("%s-%s-%d-%d.json", p.ID, pc.Tier, pc.Seed, i))
 		b, _ := json.MarshalIndent(map[string]any{"property": p.ID, "tier": pc.Tier, "seed": pc.Seed, "violation": v}, "", " ")
 		_ = os.WriteFile(path, b, 0o644)
 		replayPaths = append(replayPaths, path)
@@ -473,9 +478,9 @@ func writeEvidence(p *Prop, pc *ParentCtx, agg *Aggregate, unlisted int, wall fl
 		"violations": agg.ViolCount,
 	}
 
-	_ = os.MkdirAll(filepath.Join(pc.VerifDir, "evidence"), 0o755)
+	_ = os.MkdirAll(filepath.Join(pc.OutDir, "evidence"), 0o755)
 	b, _ := json.MarshalIndent(ev, "", " ")
-	_ = os.WriteFile(filepath.Join(pc.VerifDir, "evidence", p.ID+".json"), b, 0o644)
+	_ = os.WriteFile(filepath.Join(pc.OutDir, "evidence", p.ID+".json"), b, 0o644)
 }
 
 // ShardMain is the entry point of a child process.
